@@ -310,6 +310,7 @@ pub fn record(scratch: &Scratch, case: &Value, prepared_dir: Option<&Path>) -> R
         .env("LD_PRELOAD", &shim)
         .env("RECORDER_DIR", &watch)
         .env("RECORDER_LOG", &log)
+        .env("VERIF_SCRATCH", &base) // the child exits without unwinding: its scratch goes with ours
         .output()
         .map_err(|e| format!("cannot run recording child: {e}"))?;
     let text = std::fs::read_to_string(&log).unwrap_or_default();
